@@ -72,6 +72,10 @@ def _major_of_return(fn, params, r):
         if a in params and b in params and a != b:
             return params.index(a), f"khatri_rao({a}.T, {b}.T).T: first argument is major"
         raise AnalysisError(f"order algebra: khatri_rao operands {kr} are not the parameters of {fn.qual}")
+    if isinstance(r, ast.Name):
+        pre = _preallocated(fn, params, r.id)
+        if pre is not None:
+            return pre
     if not (isinstance(r, ast.Call) and dotted(r.func) in ("np.column_stack", "np.hstack") and len(r.args) == 1):
         raise AnalysisError(f"order algebra: unmodelled return `{unparse(r)}` in {fn.qual}")
     arg = r.args[0]
@@ -98,11 +102,24 @@ def _major_of_return(fn, params, r):
             raise AnalysisError(f"order algebra: expected one outer loop in {fn.qual}")
         outer = loops[0]
         inners = [n for n in outer.body if isinstance(n, ast.For)]
-        if len(inners) != 1 or len(outer.body) != 1:
+        # in front of the inner loop: only locals bound once per outer iteration (`x_column = x[:, j1]`), read in the inner loop
+        hoisted = {}
+        lead = outer.body[:-1] if inners and outer.body[-1] is inners[0] else None
+        if lead is not None:
+            for st in lead:
+                if isinstance(st, ast.Assign) and len(st.targets) == 1 and isinstance(st.targets[0], ast.Name) and st.targets[0].id not in hoisted \
+                        and st.targets[0].id != lst and not any(isinstance(c, ast.Call) for c in ast.walk(st.value)):
+                    hoisted[st.targets[0].id] = _subst(st.value, hoisted)
+                else:
+                    lead = None
+                    break
+        if len(inners) != 1 or lead is None:
             raise AnalysisError(f"order algebra: expected exactly one inner loop directly inside the outer loop in {fn.qual}")
         inner = inners[0]
+        if any(isinstance(n, ast.Name) and isinstance(n.ctx, ast.Store) and n.id in hoisted for n in ast.walk(inner)):
+            raise AnalysisError(f"order algebra: a local of the outer loop is re-bound in the inner loop of {fn.qual}")
         apps = [x for x in calls_in(inner) if unparse(x.func) == f"{lst}.append"]
-        local = {}
+        local = dict(hoisted)
         rest = []
         for st in inner.body:
             if isinstance(st, ast.Assign) and len(st.targets) == 1 and isinstance(st.targets[0], ast.Name) and st.targets[0].id not in local:
@@ -119,6 +136,168 @@ def _major_of_return(fn, params, r):
             raise AnalysisError(f"order algebra: list `{lst}` is reordered before stacking in {fn.qual}")
         return _from_loops(fn, params, unparse(outer.target), outer.iter, unparse(inner.target), inner.iter, _subst(apps[0].args[0], local))
     raise AnalysisError(f"order algebra: unmodelled stacking argument `{unparse(arg)}` in {fn.qual}")
+
+
+ALLOCATORS = ("np.zeros", "np.empty", "np.ones", "np.full", "np.empty_like", "np.zeros_like", "np.full_like", "np.ones_like")
+
+
+def _preallocated(fn, params, res):
+    """`R = np.zeros(...)`; two nested loops over range(<p>.shape[1]) / range(<q>.shape[1]); `R[<rows>, <column>] = E` in the
+    inner body; `return R`.  The column index is `a * W + b` with W the column count of b's operand (then a's operand is major),
+    or a counter advanced by one per store (then the outer loop's operand is major).  <rows> other than `:` is a data-dependent
+    selection of rows: the element is then not a plain product (rows not selected keep the allocator's value).
+    returns (major index, why) or None when the function does not have this shape."""
+    import copy
+    ds = [st for st in walk_local(fn.node) if isinstance(st, ast.Assign) and len(st.targets) == 1 and isinstance(st.targets[0], ast.Name) and st.targets[0].id == res]
+    if len(ds) != 1 or not (isinstance(ds[0].value, ast.Call) and dotted(ds[0].value.func) in ALLOCATORS):
+        return None
+    al = _shape_aliases(fn)
+    loops = [n for n in fn.body if isinstance(n, ast.For)]
+    if len(loops) != 1:
+        raise AnalysisError(f"order algebra: expected one outer loop filling `{res}` in {fn.qual}")
+    outer = loops[0]
+    inners = [n for n in outer.body if isinstance(n, ast.For)]
+    if not inners:
+        blk = _block_fill(fn, params, res, outer, al)
+        if blk is not None:
+            return blk
+    if len(inners) != 1:
+        raise AnalysisError(f"order algebra: expected exactly one inner loop inside the loop filling `{res}` in {fn.qual}")
+    inner = inners[0]
+    op, ip = _range_param(outer.iter, params, al), _range_param(inner.iter, params, al)
+    if op is None or ip is None or op == ip or not isinstance(outer.target, ast.Name) or not isinstance(inner.target, ast.Name):
+        raise AnalysisError(f"order algebra: loop ranges `{unparse(outer.iter)}` / `{unparse(inner.iter)}` are not range(<param>.shape[1]) in {fn.qual}")
+    ovar, ivar = outer.target.id, inner.target.id
+    var_param = {ovar: op, ivar: ip}
+    local = {}
+    for st in [x for x in outer.body if x is not inner] + list(inner.body):
+        if isinstance(st, ast.Assign) and len(st.targets) == 1 and isinstance(st.targets[0], ast.Name) and st.targets[0].id not in local:
+            local[st.targets[0].id] = _subst(st.value, local)
+    stores = [st for st in ast.walk(outer) if isinstance(st, (ast.Assign, ast.AugAssign))
+              and isinstance((st.targets[0] if isinstance(st, ast.Assign) else st.target), ast.Subscript)
+              and unparse((st.targets[0] if isinstance(st, ast.Assign) else st.target).value) == res]
+    all_stores = [st for st in ast.walk(fn.node) if isinstance(st, (ast.Assign, ast.AugAssign))
+                  and isinstance((st.targets[0] if isinstance(st, ast.Assign) else st.target), ast.Subscript)
+                  and unparse((st.targets[0] if isinstance(st, ast.Assign) else st.target).value) == res]
+    if len(stores) != 1 or len(all_stores) != 1 or stores[0] not in inner.body or not isinstance(stores[0], ast.Assign):
+        raise AnalysisError(f"order algebra: `{res}` is not filled by a single subscript store in the inner loop of {fn.qual}")
+    tg = stores[0].targets[0]
+    if not (isinstance(tg.slice, ast.Tuple) and len(tg.slice.elts) == 2):
+        raise AnalysisError(f"order algebra: unmodelled store target `{unparse(tg)}` in {fn.qual}")
+    rows, colx = tg.slice.elts
+    colx = _subst(colx, {k: v for k, v in local.items() if k not in (ovar, ivar)})
+
+    def width_of(e):
+        t = unparse(e)
+        t = al.get(t, t)
+        for p_ in params:
+            if t == f"{p_}.shape[1]":
+                return p_
+        return None
+
+    major = None
+    # a * W + b   /   b + a * W   /   W * a + b
+    if isinstance(colx, ast.BinOp) and isinstance(colx.op, ast.Add):
+        for mul, add in ((colx.left, colx.right), (colx.right, colx.left)):
+            if isinstance(mul, ast.BinOp) and isinstance(mul.op, ast.Mult) and isinstance(add, ast.Name) and add.id in var_param:
+                for a, w in ((mul.left, mul.right), (mul.right, mul.left)):
+                    if isinstance(a, ast.Name) and a.id in var_param and a.id != add.id and width_of(w) == var_param[add.id]:
+                        major = var_param[a.id]
+    elif isinstance(colx, ast.Name) and colx.id not in var_param:
+        # a running counter: bound to 0 before the loops, `k += 1` right after the store, touched nowhere else
+        k = colx.id
+        inits = [st for st in fn.body if isinstance(st, ast.Assign) and unparse(st.targets[0]) == k and unparse(st.value) == "0"]
+        steps = [st for st in ast.walk(fn.node) if isinstance(st, ast.AugAssign) and unparse(st.target) == k]
+        other = [n for n in ast.walk(fn.node) if isinstance(n, ast.Name) and n.id == k and isinstance(n.ctx, ast.Store)]
+        if len(inits) == 1 and len(steps) == 1 and len(other) == 2 and steps[0] in inner.body and isinstance(steps[0].op, ast.Add) and unparse(steps[0].value) == "1" \
+                and inner.body.index(steps[0]) > inner.body.index(stores[0]):
+            major = op
+    if major is None:
+        raise AnalysisError(f"order algebra: unmodelled column index `{unparse(tg.slice.elts[1])}` in {fn.qual}")
+    full_rows = isinstance(rows, ast.Slice) and rows.lower is None and rows.upper is None and rows.step is None
+    elt = _subst(stores[0].value, {k: v for k, v in local.items() if k not in (ovar, ivar)})
+    if not full_rows:
+        # the same row selection on both operands: look at the product with the selection removed
+        rtxt = unparse(rows)
+
+        class Full(ast.NodeTransformer):
+            def visit_Subscript(self, n):
+                self.generic_visit(n)
+                if isinstance(n.slice, ast.Tuple) and len(n.slice.elts) == 2 and unparse(n.slice.elts[0]) == rtxt:
+                    n = copy.deepcopy(n)
+                    n.slice.elts[0] = ast.Slice(lower=None, upper=None, step=None)
+                return n
+
+        elt = Full().visit(copy.deepcopy(elt))
+    idx = {}
+    for n in ast.walk(elt):
+        if isinstance(n, ast.Subscript) and isinstance(n.value, ast.Name) and n.value.id in params:
+            c = n.slice.elts[-1] if isinstance(n.slice, ast.Tuple) else n.slice
+            if isinstance(c, ast.Name):
+                idx.setdefault(c.id, set()).add(n.value.id)
+    if idx.get(ovar) != {op} or idx.get(ivar) != {ip}:
+        return (-1, f"index/range mismatch: `{ovar}` ranges over {op} but indexes {sorted(idx.get(ovar, []))}; `{ivar}` ranges over {ip} but indexes {sorted(idx.get(ivar, []))}")
+    kind = product_element(elt, params)
+    if kind is None:
+        raise AnalysisError(f"order algebra: stored element `{unparse(stores[0].value)}` is not a product of one column of each operand in {fn.qual}")
+    if not full_rows:
+        kind = "masked"
+    fn._pairwise_element = (kind, unparse(stores[0]))
+    return params.index(major), f"column index `{unparse(tg.slice.elts[1])}` of the preallocated result: `{major}` is major"
+
+
+def _block_fill(fn, params, res, loop, al):
+    """for j in range(<p>.shape[1]):  R[:, j * W:(j + 1) * W] = p[:, [j]] * q   (W = q.shape[1]): one block of q-many columns per
+    column of p, so p is major and every column is a plain product (broadcast of a single column against all columns of q)"""
+    op = _range_param(loop.iter, params, al)
+    if op is None or not isinstance(loop.target, ast.Name):
+        return None
+    j = loop.target.id
+    other = [p_ for p_ in params if p_ != op][0]
+    body = [st for st in loop.body if not (isinstance(st, ast.Expr) and isinstance(st.value, ast.Constant))]
+    if len(body) != 1 or not isinstance(body[0], ast.Assign) or len(body[0].targets) != 1:
+        return None
+    tg, val = body[0].targets[0], body[0].value
+    if not (isinstance(tg, ast.Subscript) and unparse(tg.value) == res and isinstance(tg.slice, ast.Tuple) and len(tg.slice.elts) == 2):
+        return None
+    rows, cols = tg.slice.elts
+    if not (isinstance(rows, ast.Slice) and rows.lower is None and rows.upper is None and isinstance(cols, ast.Slice) and cols.step is None):
+        return None
+
+    def norm(e):
+        t = unparse(e)
+        for k, v in al.items():
+            t = t.replace(k, v) if t == k else t
+        return t
+
+    def is_width(e):
+        t = unparse(e)
+        return al.get(t, t) == f"{other}.shape[1]"
+
+    lo, hi = cols.lower, cols.upper
+    ok_lo = isinstance(lo, ast.BinOp) and isinstance(lo.op, ast.Mult) and ((unparse(lo.left) == j and is_width(lo.right)) or (unparse(lo.right) == j and is_width(lo.left)))
+    ok_hi = isinstance(hi, ast.BinOp) and isinstance(hi.op, ast.Mult) and any(
+        unparse(a) in (f"{j} + 1", f"1 + {j}") and is_width(b) for a, b in ((hi.left, hi.right), (hi.right, hi.left)))
+    if not ok_hi and isinstance(hi, ast.BinOp) and isinstance(hi.op, ast.Add) and lo is not None:
+        ok_hi = any(unparse(a) == unparse(lo) and is_width(b) for a, b in ((hi.left, hi.right), (hi.right, hi.left)))
+    if not (ok_lo and ok_hi):
+        raise AnalysisError(f"order algebra: unmodelled block bounds `{unparse(cols)}` in {fn.qual}")
+    # element: <op>[:, [j]] * <other>   (either order) / <op>[:, j, None] / <op>[:, j][:, None] / <op>[:, j:j + 1]
+    single = {f"{op}[:, [{j}]]", f"{op}[:, {j}, None]", f"{op}[:, {j}, np.newaxis]", f"{op}[:, {j}][:, None]", f"{op}[:, {j}][:, np.newaxis]", f"{op}[:, {j}:{j} + 1]"}
+    if not (isinstance(val, ast.BinOp) and isinstance(val.op, ast.Mult) and {unparse(val.left), unparse(val.right)} & single
+            and other in (unparse(val.left), unparse(val.right))):
+        kind = "masked" if any(isinstance(n, ast.Call) and (dotted(n.func) or "") in MASKING_CALLS for n in ast.walk(val)) else None
+        if kind is None:
+            raise AnalysisError(f"order algebra: stored block `{unparse(val)}` is not one column of `{op}` times `{other}` in {fn.qual}")
+    else:
+        kind = "product"
+    stores = [st for st in ast.walk(fn.node) if isinstance(st, (ast.Assign, ast.AugAssign))
+              and isinstance((st.targets[0] if isinstance(st, ast.Assign) else st.target), ast.Subscript)
+              and unparse((st.targets[0] if isinstance(st, ast.Assign) else st.target).value) == res]
+    if len(stores) != 1:
+        raise AnalysisError(f"order algebra: `{res}` is stored into at several places in {fn.qual}")
+    fn._pairwise_element = (kind, unparse(body[0]))
+    return params.index(op), f"one block of `{other}`-many columns per column of `{op}`: `{op}` is major"
 
 
 def _subst(e, local):
@@ -192,6 +371,10 @@ def _shape_aliases(fn):
                 out[t.id] = unparse(v)
             if isinstance(t, ast.Tuple) and len(t.elts) == 2 and isinstance(v, ast.Attribute) and v.attr == "shape" and isinstance(t.elts[1], ast.Name):
                 out[t.elts[1].id] = f"{unparse(v.value)}.shape[1]"
+            if isinstance(t, ast.Tuple) and isinstance(v, ast.Tuple) and len(t.elts) == len(v.elts):
+                for t1, v1 in zip(t.elts, v.elts):
+                    if isinstance(t1, ast.Name) and isinstance(v1, ast.Subscript) and unparse(v1).endswith(".shape[1]"):
+                        out[t1.id] = unparse(v1)
     return out
 
 
